@@ -175,6 +175,37 @@ func c14Sess(ctx context.Context, s Session, end func(bool)) verifc14.Sess {
 			}
 			return err
 		},
+		QueryPartial: func(q string) error {
+			var out []string
+			var err error
+			if ctx != nil {
+				err = s.QueryRowsPartialCtx(ctx, &out, q)
+			} else {
+				err = s.QueryRowsPartial(&out, q)
+			}
+			if err == nil && (len(out) != 1 || out[0] != "c14") {
+				return fmt.Errorf("c14: unexpected rows %v", out)
+			}
+			return err
+		},
+		QueryRowPartial: func(q string) error {
+			var out string
+			var err error
+			if ctx != nil {
+				err = s.QueryRowPartialCtx(ctx, &out, q)
+			} else {
+				err = s.QueryRowPartial(&out, q)
+			}
+			if err == nil && out != "c14" {
+				return fmt.Errorf("c14: unexpected row %v", out)
+			}
+			return err
+		},
+		RawDB: func() (bool, error) {
+			raw, err := NewSqlConnFromSession(s).RawDB()
+			return raw != nil, err
+		},
+		CV: c14CV(ctx),
 		RawExec: func(q string) error {
 			rs := NewSessionFromTx(s.(txSession).Tx)
 			if ctx != nil {
@@ -214,6 +245,17 @@ func c14Sess(ctx context.Context, s Session, end func(bool)) verifc14.Sess {
 		},
 		End: end,
 	}
+}
+
+// c14CV: does the context the body was given carry the value put into the context passed to TransactCtx
+func c14CV(ctx context.Context) string {
+	if ctx == nil {
+		return "-"
+	}
+	if v, _ := ctx.Value(verifc14.CtxKey{}).(string); v == verifc14.CtxVal {
+		return "1"
+	}
+	return "0"
 }
 
 func c14Gen(r *verifh.Rng) []verifh.Section {
@@ -353,6 +395,9 @@ func TestVerifC14(t *testing.T) {
 				end(false)
 			case "ctxdead":
 				end(true)
+			}
+			if ctx != nil {
+				ctx = context.WithValue(ctx, verifc14.CtxKey{}, verifc14.CtxVal)
 			}
 			fnCtx := func(c context.Context, s Session) error { return body(c14Sess(c, s, end)) }
 			if via == "onconn" {
